@@ -22,7 +22,9 @@ typedef unsigned int WT;
 typedef unsigned long WT;
 #define WNAME unsignedlong
 #endif
-#ifdef VF_BASIC
+#if defined(VF_BASIC) && VF_WB == 64
+typedef struct CAT(etl_basic_bitset_, VF_N) B;   /* size_t is the default word type: clang elides it from the type name */
+#elif defined(VF_BASIC)
 typedef struct CAT(CAT(CAT(etl_basic_bitset_, VF_N), _), WNAME) B;
 #else
 typedef struct CAT(etl_bitset_, VF_N) B;
@@ -105,7 +107,7 @@ void h_to_integer(void) { ARB(b); unsigned long long e = 0; for (unsigned long i
   VF_ASSERT(b_to_ullong(&b) == e && b_to_ulong(&b) == (unsigned long)e, "to_ulong/to_ullong: bit i is binary digit i");
   VF_REACH(); }
 
-/*@GROUP name=to_string props=C17,C02 kind=K unwind=VF_N+4 when=VF_BASIC==0@*/
+/*@GROUP name=to_string props=C17,C02 kind=K unwind=VF_N+4 objbits=16 when=VF_BASIC==0@*/
 void h_to_string(void) { ARB(b); GHOST(g); VF_INPUT(char, zero); VF_INPUT(char, one); char out[N + 1]; unsigned long len;
   b_to_string(&b, out, &len, zero, one);
   VF_ASSERT(len == N && out[N - 1 - g] == (bit(&b, g) ? one : zero), "to_string(zero,one): N characters, character N-1-i shows bit i (most significant first)");
